@@ -24,6 +24,7 @@ func c11Connectors() []connKind {
 		{"behavior(0)", subjKind{"behavior(0)", "behavior", 0, func() ro.Subject[int] { return ro.NewBehaviorSubject[int](0) }}},
 		{"replay(1)", subjKind{"replay(1)", "replay", 1, func() ro.Subject[int] { return ro.NewReplaySubject[int](1) }}},
 		{"replay(2)", subjKind{"replay(2)", "replay", 2, func() ro.Subject[int] { return ro.NewReplaySubject[int](2) }}},
+		{"replay(0)", subjKind{"replay(0)", "replay", 0, func() ro.Subject[int] { return ro.NewReplaySubject[int](0) }}},
 	}
 }
 
